@@ -2747,7 +2747,17 @@ public:
       return;
     }
 
-    const array_state &as = lookup_array_state(rhs);
+    if (lhs == rhs) {
+      return;
+    }
+
+    // The old contents of lhs are overwritten. Its cells must be
+    // forgotten, otherwise a cell of lhs that does not exist in rhs
+    // would keep its old value.
+    forget_array(lhs);
+
+    // make a copy: forget_array modifies the map of array states
+    const array_state as = lookup_array_state(rhs);
     if (!as.is_smashed()) {
       offset_map_t lhs_om;
       const offset_map_t &rhs_om = as.get_offset_map();
